@@ -81,6 +81,12 @@ def signature(cfg, qw, kind):
     partial = any((a['outcome'] or '').startswith(('map', 'seq')) for a in qw.attempts)
     rounds = max([v['attempts'] for v in qw.ledger.values()] or [0])
     mech = 'pool-deadlock' if getattr(qw, 'pool_deadlock', False) else 'other'
+    marks = {}
+    for e in qw.events:
+        if e[1] == 'store' and e[2] == 'set_recipients_delivered':
+            marks[e[3]] = marks.get(e[3], 0) + 1
+    if mech == 'other' and max(marks.values() or [0]) >= 2:
+        mech = 'multi-round-marking'
     return {'kind': kind, 'backend': cfg['backend'], 'exception': ','.join(errs) or 'none',
             'partial_result': partial, 'second_round': rounds >= 2, 'mechanism': mech}
 
